@@ -10,6 +10,7 @@ From Coq Require Import ZArith List.
 From Verif Require Import Lib.Params Lib.Words Lib.NumberTheory Model.FfLimbs
   Proofs.FfWords Proofs.FfArith Proofs.FfOps Proofs.FfInverse Proofs.FfRoutinesEq
   Model.AsmSem Proofs.AsmProofs.
+From Verif Require Proofs.GapField.
 From Verif Require Gen.FfRoutines Gen.FfAsm.
 Import ListNotations.
 Local Open Scope Z_scope.
@@ -264,6 +265,10 @@ Theorem C05_asm_adx_mul_correct : forall adx (lres lx ly : loc) (st : state) (x 
     canon (mem st' lres) /\ mval (mem st' lres) = (mval x * mval y) mod q.
 Proof. exact asm_adx_mul_correct. Qed.
 
+Theorem C05_div_by_zero : forall x y, canon x -> canon y -> mval y = 0 ->
+  exists z, div x y = Some z /\ mval z = 0.
+Proof. exact GapField.ff_div_by_zero. Qed.
+
 Print Assumptions C05_asm_mul_correct.
 Print Assumptions C05_asm_adx_mul_correct.
 Print Assumptions C05_asm_add_correct.
@@ -277,3 +282,4 @@ Print Assumptions C05_batchInvert.
 Print Assumptions C05_exp.
 Print Assumptions C05_butterfly.
 Print Assumptions C05_constants.
+Print Assumptions C05_div_by_zero.
